@@ -355,6 +355,10 @@ def serialize_to_json(elements: Iterable[Any],
         def items(self) -> Any:
             return self._items
 
+    def member_value(value: Any) -> Any:
+        # A map entry or an array member: an empty sequence is written as null
+        return None if isinstance(value, list) and not value else value
+
     class XPathEncoder(json.JSONEncoder):
 
         def default(self, obj: Any) -> Any:
@@ -391,16 +395,18 @@ def serialize_to_json(elements: Iterable[Any],
                 for k, v in obj.items():
                     if isinstance(k, QName):
                         k = str(k)
-                    map_items.append((k, v))
+                    map_items.append((k, member_value(v)))
 
-                    if k not in map_keys:
-                        map_keys.add(k)
+                    # the keys are compared as they are written (1 and '1' are both "1")
+                    name = k if isinstance(k, str) else json.dumps(k, cls=XPathEncoder)
+                    if name not in map_keys:
+                        map_keys.add(name)
                     elif not params.get('allow_duplicate_names'):
                         raise xpath_error('SERE0022', token=token)
                 return MapEncodingDict(map_items)
 
             elif isinstance(obj, XPathArray):
-                return [v if v or not isinstance(v, list) else None for v in obj.items()]
+                return [member_value(v) for v in obj.items()]
             elif isinstance(obj, (AbstractBinary, AbstractDateTime, AnyURI, UntypedAtomic)):
                 return str(obj)
             elif isinstance(obj, Decimal):
